@@ -466,6 +466,66 @@ def loop_shape_facts(numba_t) -> list[tuple[str, str, str]]:
     facts["cumRowCounter"] = "i += 1" in cs and "i = -1" in cs
     cloops = [ast.unparse(l.iter) for l in ast.walk(cum) if isinstance(l, ast.For)]
     facts["cumRowsInOrder"] = sorted(cloops) == ["arr", "values"]
+    # the wrapper of the cumulative kernel: a target of one cell per row, the null marker written at the null-key rows iff the
+    # kernel reports any (C06.source_cum_null_row_marker: the kernel leaves the initial value there)
+    ac = find_func(numba_t, "_apply_cumulative")
+    acs = _simple_stmts(ac)
+    ifs = [n for n in ast.walk(ac) if isinstance(n, ast.If) and ast.unparse(n.test) == "has_null_keys"]
+    facts["cumTargetOneCellPerRow"] = any(x.startswith("target = _build_target_for_groupby(") and x.endswith("len(group_key))") for x in acs)
+    facts["cumNullKeyRowsGetNullMarker"] = len(ifs) == 1 and ast.unparse(ifs[0].body[-1]) == "result[np.asarray(group_key) < 0] = na_rep" and \
+        "na_rep = _null_value_for_numpy_type(result.dtype)" in acs and "na_rep = 0" in acs
+    # the Python fold that merges the per-block partials (mirrored by `C03.srcCombine`)
+    comb = find_func(numba_t, "combine_chunk_results_for_factorized_key")
+    bs = _simple_stmts(comb)
+    cl = [n for n in ast.walk(comb) if isinstance(n, ast.For)]
+    facts["combineStartsWithFirstBlock"] = "combined = chunks[0]" in bs and "combined_count = counts[0]" in bs
+    facts["combineFoldsRemainingBlocksInOrder"] = len(cl) == 1 and ast.unparse(cl[0].iter) == "zip(chunks[1:], counts[1:])" and \
+        ast.unparse(cl[0].target) == "(chunk, count)"
+    merge = ("combined = reduce_array_pair(combined, chunk, getattr(ScalarFuncs, reduce_func_name), "
+             "counts=combined_count if counts_given else None, y_counts=count if counts_given else None)")
+    facts["combineMergesWithBothCounts"] = len(cl) == 1 and [ast.unparse(x) for x in cl[0].body] == [merge, "combined_count = combined_count + count"]
+    facts["combineReturnsBoth"] = any(isinstance(n, ast.Return) and ast.unparse(n.value) == "(combined, combined_count)" for n in ast.walk(comb))
+    return [(k, "Bool", lean_bool(v)) for k, v in facts.items()]
+
+
+def transform_shape_facts(core_t) -> list[tuple[str, str, str]]:
+    """the Python around the kernels that C07's `transformRows` / `source_transform_eq_lookup` stand for: every kernel call gets
+    one slot more than there are groups (the null group), the per-chunk results drop that slot before they are merged into a
+    target that has it again, and transform=True fancy-indexes the per-group arrays with the row codes"""
+    facts = {}
+    cls = find_class(core_t, "GroupBy")
+    fn = {n.name: n for n in cls.body if isinstance(n, ast.FunctionDef)}
+    ba = _simple_stmts(fn["_build_arg_dict_for_function"])
+    facts["kernelCallHasNullSlot"] = any(x.startswith("shared_kwargs = dict(") and "ngroups=self.ngroups + 1" in x for x in ba)
+    ch = fn["_apply_gb_func_across_chunked_group_keys"]
+    cs = _simple_stmts(ch)
+    facts["chunkedKernelCallHasNullSlot"] = any("ngroups=len(pointer) + 1 if pointer is not None else self.ngroups + 1" in x for x in cs)
+    tgt = [n for n in ast.walk(ch) if isinstance(n, ast.Assign) and ast.unparse(n.targets[0]) == "combined"
+           and isinstance(n.value, ast.Call) and ast.unparse(n.value.func).endswith("_build_target_for_groupby")]
+    facts["chunkedTargetHasNullSlot"] = len(tgt) == 1 and len(tgt[0].value.args) == 3 and \
+        ast.unparse(tgt[0].value.args[2]) == "len(self._result_index) + 1"
+    facts["chunkResultsDropNullSlot"] = "result = result[:-1]" in cs and any("y_counts=counts_one_value[j][:-1]" in x for x in cs) and \
+        "count[pointer] += counts_one_value[j][:-1]" in cs
+    # the lazy unification of chunk-local codes (C03.chunk_route_eq_global / C13.unify_preserves_abs model it): every chunk is
+    # mapped through its pointer table at the non-null positions only, the null code is kept - unconditionally
+    un = fn["_unify_group_key_chunks"]
+    loops = [n for n in ast.walk(un) if isinstance(n, ast.For)]
+    body = [ast.unparse(x) for x in loops[0].body] if len(loops) == 1 else []
+    facts["unifyKeepsNullCode"] = len(loops) == 1 and ast.unparse(loops[0].iter) == "zip(self._group_key_pointers, self._group_ikey.chunks)" and \
+        body == ["k = np.asarray(k)", "not_null = k >= 0", "global_codes = np.full(len(k), -1, dtype=np.int64)",
+                 "global_codes[not_null] = p[k[not_null]]", "chunks.append(global_codes)"]
+    # GroupBy.var (C16: `varFrom` / `group_var_eq_two_pass` model it): one-pass formula from three reductions, null when the
+    # group has no more values than ddof
+    vs = _simple_stmts(fn["var"])
+    rets = [ast.unparse(n.value) for n in ast.walk(fn["var"]) if isinstance(n, ast.Return)]
+    facts["varOnePassFormula"] = rets == ["(sq_sum - sum_sq / count) / denominator"] and \
+        any(x.startswith("sq_sum = self._apply_gb_reduction('sum_squares'") for x in vs) and \
+        any(x.startswith("sum_sq = self.sum(") and x.endswith("** 2") for x in vs) and \
+        any(x.startswith("count = self.count(") for x in vs)
+    facts["varNullWhenCountLeDdof"] = "denominator = np.where(n_values > ddof, n_values - ddof, np.nan)" in vs and \
+        "n_values = np.asarray(count.to_numpy(), dtype=np.float64)" in vs
+    rd = _simple_stmts(fn["_apply_gb_reduction"])
+    facts["transformBroadcastsByCodes"] = "result_columns = [result[self.group_ikey] for result in result_columns]" in rd
     return [(k, "Bool", lean_bool(v)) for k, v in facts.items()]
 
 
@@ -528,6 +588,7 @@ def generate() -> dict[str, str]:
     ]:
         consts.append((nm, "Bool", lean_bool(has_neg_key_guard(fn, kv))))
     consts.extend(loop_shape_facts(numba_t))
+    consts.extend(transform_shape_facts(core_t))
     consts.append(("chunkedFactorizeThreshold", "Nat", str(module_int_constant(core_t, "THRESHOLD_FOR_CHUNKED_FACTORIZE"))))
     api_t = ast.parse((REPO / "groupby_lib/groupby/api.py").read_text())
     files["Facade.lean"] = head + facade_facts(api_t)
